@@ -49,6 +49,8 @@ class Cfg:
         self.pad_options = True          # FixedStringPad* options
         self.u64_prefix = True
         self.unique_inline = True
+        self.inline_rich = True          # inline objects may hold references, match fields, MetaData-typed fields
+        self.meta_pad_attr = True        # padding attributes on MetaData-typed fixed strings
         self.__dict__.update(kw)
 
 
@@ -93,8 +95,10 @@ def _names(rng, pool, n, odd=False):
 def gen_simple_field(rng, cfg, name, metas, allow_repeat=True, in_inline=False):
     """A field that needs no other declaration (scalar / fixed / dyn / meta-typed)."""
     kinds = ["scalar", "scalar", "fixed", "dyn"]
-    if cfg.allow_meta and metas and not in_inline:
+    if cfg.allow_meta and metas and (not in_inline or cfg.inline_rich):
         kinds.append("metaref")
+        if len(metas) > 0 and cfg.inline_rich:
+            kinds.append("metaref")
     k = rng.choice(kinds)
     rep = cfg.allow_repeat and allow_repeat and rng.random() < 0.25
     doc = "`%s doc`" % name if rng.random() < 0.3 else None
@@ -112,7 +116,12 @@ def gen_simple_field(rng, cfg, name, metas, allow_repeat=True, in_inline=False):
     if k == "dyn":
         return {"kind": "dyn", "name": name, "spelling": rng.choice(["string", "char[]"]), "repeat": rep, "doc": doc}
     m = rng.choice(metas)
-    return {"kind": "metaref", "name": name, "meta": m, "named": rng.random() < 0.7, "repeat": rep, "doc": None}
+    mname = m["name"] if isinstance(m, dict) else m
+    pad = None
+    if (cfg.meta_pad_attr and cfg.allow_pad_attr and not in_inline and isinstance(m, dict) and m["kind"] == "fixed"
+            and rng.random() < 0.35):
+        pad = (rng.choice(["left", "right"]), rng.choice(PADCHARS))
+    return {"kind": "metaref", "name": name, "meta": mname, "named": rng.random() < 0.7, "repeat": rep, "doc": None, "pad": pad}
 
 
 def gen_program(rng, cfg=None):
@@ -127,7 +136,7 @@ def gen_program(rng, cfg=None):
                                           allow_char=cfg.allow_char, allow_zchar=cfg.allow_zchar), nm, [], False)
             f["doc"] = "`%s`" % nm  # MetaData entries need a doc string (the visitor dereferences it)
             entries.append(f)
-            metas.append(nm)
+            metas.append(f)
         prog["metas"].append({"name": "Types", "entries": entries})
     npk = rng.randint(1, cfg.max_packets)
     pnames = _names(rng, PKT_NAMES, npk)
@@ -184,7 +193,7 @@ def gen_program(rng, cfg=None):
                     j += 1
                 fields.append({"kind": "ref", "name": name if named else t, "packet": t, "named": named, "repeat": rep})
             elif cfg.allow_inline and r < 0.40:
-                fields.append(gen_inline(rng, cfg, name, cfg.inline_depth))
+                fields.append(gen_inline(rng, cfg, name, cfg.inline_depth, later, metas))
             elif cfg.allow_checksum and r < 0.47:
                 fields.append({"kind": "checksum", "name": name, "type": rng.choice(INTS if rng.random() < 0.3 else ["u32", "u16", "u8", "u64"]),
                                "algo": rng.choice(['"CRC32"', '"SUM8"', '"XOR"']), "prefixed": rng.random() < 0.5, "doc": None})
@@ -223,14 +232,30 @@ def _key(ktype, v):
 _inline_counter = [0]
 
 
-def gen_inline(rng, cfg, name, depth):
+def gen_inline(rng, cfg, name, depth, later=(), metas=()):
     nf = rng.randint(1, 3)
     fields = []
+    rich = cfg.inline_rich
     for nm in _names(rng, ["Px", "Sz", "Id", "Note", "Kind", "Sub"], nf):
-        if depth > 1 and rng.random() < 0.2:
-            fields.append(gen_inline(rng, cfg, nm, depth - 1))
+        r = rng.random()
+        if depth > 1 and r < 0.2:
+            fields.append(gen_inline(rng, cfg, nm, depth - 1, later, metas))
+        elif rich and cfg.allow_ref and later and r < 0.35:
+            t = rng.choice(list(later))
+            fields.append({"kind": "ref", "name": nm + "Ref", "packet": t, "named": True,
+                           "repeat": cfg.allow_repeat and rng.random() < 0.3})
+        elif rich and cfg.allow_match and later and r < 0.45:
+            ktype = rng.choice(INTS[:6] + (["string"] if cfg.string_keys else []))
+            targets = rng.sample(list(later), rng.randint(1, min(2, len(later))))
+            pairs = [{"keys": [_key(ktype, i + 1)], "list": False, "target": t} for i, t in enumerate(targets)]
+            if ktype == "string":
+                fields.append({"kind": "dyn", "name": nm + "Key", "spelling": "string", "repeat": False, "doc": None})
+            else:
+                fields.append({"kind": "scalar", "name": nm + "Key", "type": ktype, "alias": False, "repeat": False, "doc": None})
+            fields.append({"kind": "match", "name": nm + "Body", "key": nm + "Key", "pairs": pairs})
         else:
-            fields.append(gen_simple_field(rng, cfg, nm, [], in_inline=True))
+            fields.append(gen_simple_field(rng, cfg, nm, list(metas) if rich else [], in_inline=True))
+    _dedupe(fields)
     # inline object names are type names in every target: keep them unique per program
     _inline_counter[0] += 1
     if cfg.unique_inline:
@@ -280,7 +305,7 @@ def render_field(f, L, ind, with_attrs=True):
     if with_attrs:
         if f.get("tag") is not None:
             s += "@tag(%d)" % f["tag"] + nl
-        if f["kind"] == "fixed" and f.get("pad"):
+        if f["kind"] in ("fixed", "metaref") and f.get("pad"):
             s += "@%sPad(%s)" % f["pad"] + nl
         if f["kind"] == "length" and f["prefixed"]:
             s += "@lengthOf(%s)" % f["target"] + nl
